@@ -1,6 +1,7 @@
 package lang
 
 import (
+	"fmt"
 	"encoding/json"
 	"regexp"
 	"strconv"
@@ -288,6 +289,56 @@ func TestC07Reject(t *testing.T) {
 			s.c.Mapped = true
 			s.c.Disabled = nil
 			s.c.Bindings = nil
+			if len(ins) >= 2 && rapid.Bool().Draw(t, "mixedSources") {
+				// sources of different kinds in one map call, in any order:
+				// a collection of unknown size (a new pipeline input), the
+				// output of a helper map call over a literal of 3 elements
+				// (size known through that call), a literal of 2 elements.
+				// 3 and 2 cannot both be the number of forks.
+				intT := mrogen.Ty{Base: "int"}
+				kinds := []string{"helper3", "literal2"}
+				for len(kinds) < len(ins) {
+					kinds = append(kinds, rapid.SampledFrom([]string{"unknown", "unknown", "fixed"}).Draw(t, "extraSrc"))
+				}
+				kinds = shuffled(t, kinds, "srcOrder")
+				helperMade := false
+				for i, pa := range ins {
+					switch kinds[i] {
+					case "helper3":
+						if !helperMade {
+							helperMade = true
+							prog.Stages = append(prog.Stages, &mrogen.Stage{Name: "ZZ_ONE", Ins: []mrogen.Param{{Name: "p", T: intT}},
+								Outs: []mrogen.Param{{Name: "y", T: pa.T}}, SrcLang: "comp", SrcPath: "stagebin ZZ_ONE"})
+							one := mrogen.Lit{V: json.Number("1"), T: intT}
+							zc := &mrogen.Call{Id: "ZZ_ONE", Callee: "ZZ_ONE", Mapped: true,
+								Bindings: []mrogen.Binding{{Param: "p", E: mrogen.Split{E: mrogen.ArrayLit{Elems: []mrogen.Expr{one, one, one}}}}}}
+							s.pl.Calls = append([]*mrogen.Call{zc}, s.pl.Calls...)
+						}
+						s.c.Bindings = append(s.c.Bindings, mrogen.Binding{Param: pa.Name, E: mrogen.Split{E: mrogen.Ref{Call: "ZZ_ONE", Out: "y"}}})
+					case "literal2":
+						s.c.Bindings = append(s.c.Bindings, mrogen.Binding{Param: pa.Name, E: mk(pa, 2)})
+					case "unknown":
+						name := fmt.Sprintf("zz_arr%d", i)
+						s.pl.Ins = append(s.pl.Ins, mrogen.Param{Name: name, T: pa.T.ArrayOf()})
+						null := mrogen.Lit{V: nil, T: pa.T.ArrayOf()}
+						for _, opl := range prog.Pipelines {
+							for _, oc := range opl.Calls {
+								if oc.Callee == s.pl.Name {
+									oc.Bindings = append(oc.Bindings, mrogen.Binding{Param: name, E: null})
+								}
+							}
+						}
+						if prog.Top.Callee == s.pl.Name {
+							prog.Top.Bindings = append(prog.Top.Bindings, mrogen.Binding{Param: name, E: null})
+						}
+						s.c.Bindings = append(s.c.Bindings, mrogen.Binding{Param: pa.Name, E: mrogen.Split{E: mrogen.Ref{Out: name}}})
+					default:
+						s.c.Bindings = append(s.c.Bindings, mrogen.Binding{Param: pa.Name, E: mrogen.Lit{V: prog.U.GenValue(t, pa.T, vc), T: pa.T}})
+					}
+				}
+				kind += ":mixed-sources"
+				ins = nil // (bindings are complete)
+			}
 			for i, pa := range ins {
 				switch i {
 				case 0:
